@@ -213,7 +213,7 @@ pub fn enrich(rng: &mut Rng, m: &mut SchemaModel, features: &mut BTreeSet<String
             // spec: an additional argument must not be *required* (non-null without default)
             extra = iv("extra", Ty::non_null(Ty::named("String")));
             extra.default = Some(s("d"));
-            features.insert("TAG:impl-extra-arg-nonnull-with-default".into());
+            features.insert("valid:impl-extra-arg-nonnull-with-default".into());
         }
         let order: Vec<&str> = if rng.coin() { vec!["Left", "Right", "Base", "HasU"] } else { vec!["HasU", "Base", "Right", "Left"] };
         items.push(obj(
@@ -315,15 +315,15 @@ pub fn enrich(rng: &mut Rng, m: &mut SchemaModel, features: &mut BTreeSet<String
             match rng.below(3) {
                 0 => {
                     new = vec![Dir::new("meta", vec![Arg::new("ratio", i("1"))])];
-                    features.insert("TAG:coercion-int-for-float".into());
+                    features.insert("valid:coercion-int-for-float".into());
                 }
                 1 => {
                     new = vec![Dir::new("meta", vec![Arg::new("ident", i("7"))])];
-                    features.insert("TAG:coercion-int-for-id".into());
+                    features.insert("valid:coercion-int-for-id".into());
                 }
                 _ => {
                     new = vec![Dir::new("meta", vec![Arg::new("tags", s("single"))])];
-                    features.insert("TAG:coercion-item-for-list".into());
+                    features.insert("valid:coercion-item-for-list".into());
                 }
             }
         }
@@ -1090,7 +1090,7 @@ pub fn mutate(rng: &mut Rng, items: &mut Vec<TsItem>, rule: &str) -> Option<Stri
             let (site, loc, ext) = ss[rng.below(ss.len())].clone();
             dirs_at(items, &site).push(d);
             let _ = (loc, ext);
-            Some(format!("{class}@{}", site_class(&site, loc, false)))
+            Some(class.to_string())
         }
         "directive-recursion" => {
             let arg_with = |name: &str, ty: Ty, dirs: Vec<Dir>| {
